@@ -296,11 +296,76 @@ def end_to_end(chk, b, rng, tier):
     chk.nontrivial("end-to-end")
 
 
+def concurrent_parsers(chk, b, rng, tier):
+    """The parsers are plain functions and may be called from several goroutines at once (the driver uses 6): thousands of
+    listing lines and tag bodies with type words and names never seen before, interleaved with ordinary ones. The plain
+    build must answer every case with the right fields; the same batch under the race detector must leave its log empty."""
+    n = 20000 if tier == "quick" else 400000
+    cases, want = [], []
+    h = "%040x"
+    for i in range(n):
+        word = rng.choice(["blob", "tree", "commit", "tag", "kind%d" % i, "t%dx" % (i * 7), "Blob", "commit%d" % (i % 50)])
+        oid = h % rng.getrandbits(160)
+        size = rng.choice([0, 1, 12, 4096, 2 ** 31, rng.getrandbits(30)])
+        k = i % 3
+        if k == 0:
+            name = "refs/heads/n%d" % i
+            cases.append({"id": i, "kind": "ref", "data": b64(("%s %s %d %s" % (oid, word, size, name)).encode())})
+            want.append(("ref", oid, word, size, name))
+        elif k == 1:
+            cases.append({"id": i, "kind": "batch", "data": b64(("%s %s %d\n" % (oid, word, size)).encode())})
+            want.append(("batch", oid, word, size, None))
+        else:
+            body = ("object %s\ntype %s\ntag t%d\ntagger T <t@example.com> 1 +0000\n\nmessage %d\n" % (oid, word, i, i)).encode()
+            cases.append({"id": i, "kind": "tag", "data": b64(body)})
+            want.append(("tag", oid, word, len(body), None))
+    for build in ("plain", "race"):
+        drv = b.apidrv(race=(build == "race"))
+        logdir = os.path.join(b.scratchdir(), "concurrent-race")
+        shutil.rmtree(logdir, ignore_errors=True)
+        os.makedirs(logdir)
+        sub = cases if build == "plain" else cases[:max(3000, n // 10)]
+        obs, rc, err = R.drv(drv, "parse", sub, env={"GORACE": "halt_on_error=0 log_path=%s/race" % logdir, "GOMAXPROCS": "8"})
+        chk.count(len(obs))
+        if len(obs) != len(sub) or rc not in (0, 66):
+            chk.violation("C16/concurrent/parsers-crashed-when-called-from-several-goroutines/" + build,
+                          {"answered": len(obs), "asked": len(sub), "exit_status": rc, "stderr": err[:1500].decode("utf-8", "replace")})
+            continue
+        bad = 0
+        for o in obs:
+            kind, oid, word, size, name = want[o["id"]]
+            if "panic" in o:
+                chk.violation("C16/concurrent/panic/" + kind, {"panic": o["panic"], "case": want[o["id"]]})
+                continue
+            if "err" in o:
+                if kind == "tag" and word not in ("blob", "tree", "commit", "tag"):
+                    continue    # an unknown referent type may be refused
+                chk.violation("C16/concurrent/well-formed-input-rejected/" + kind, {"err": o["err"], "case": want[o["id"]]})
+                continue
+            ok = o.get("type") == word and (o.get("oid", o.get("referent")) == oid)
+            if kind in ("ref", "batch"):
+                ok = ok and o.get("size") == min(size, 2 ** 32 - 1 if kind == "ref" else size)
+            if kind == "ref":
+                ok = ok and base64.b64decode(o["refname"]).decode() == name
+            if not ok and bad < 3:
+                bad += 1
+                chk.violation("C16/concurrent/fields-differ/" + kind, {"got": o, "want": want[o["id"]]})
+        txt = b""
+        for fn in sorted(os.listdir(logdir)):
+            txt += open(os.path.join(logdir, fn), "rb").read()
+        if b"WARNING: DATA RACE" in txt:
+            chk.violation("C16/concurrent/data-race-inside-the-parsers", {"reports": txt.count(b"WARNING: DATA RACE"), "first": txt[:2500].decode("utf-8", "replace")})
+        shutil.rmtree(logdir, ignore_errors=True)
+        chk.cov["concurrent_parser_cases_" + build] = len(obs)
+    chk.nontrivial(("concurrent", n))
+
+
 def run(chk, b, tier):
     rng = random.Random("C16|%d" % R.SEED)
     drv = b.apidrv()
     bodies = differential(chk, drv, rng, tier)
     listing_truncations(chk, drv, b, rng, tier)
+    concurrent_parsers(chk, b, random.Random("C16c|%d" % R.SEED), tier)
     end_to_end(chk, b, rng, tier)
     fuzz(chk, b, bodies, tier)
     chk.cov["rule"] = ("(1) differential: every tree/commit/tag body of generated models (hostile names, gpgsig / mergetag "
@@ -309,7 +374,8 @@ def run(chk, b, tier):
                        "trees; (2) every prefix (with and without LF) of real for-each-ref and cat-file --batch-check lines "
                        "through ParseReference / ParseBatchHeader: result or error, never a panic, full lines give the right "
                        "fields; (3) Go native coverage-guided fuzzing of 6 targets with in-target oracles (no panic, "
-                       "termination, sub-slice, agreement with a reference parser on well-formed input). Non-trivial = "
+                       "termination, sub-slice, agreement with a reference parser on well-formed input); (4) 2*10^4 (4*10^5) listing lines "
+                       "and tag bodies with never-seen type words parsed by 6 goroutines at once, plain and -race builds. Non-trivial = "
                        "objects/lines judged in (1)+(2); fuzz executions are counted in evaluations.")
     chk.assumptions += ["'accepted by git' for generated objects = produced by the generator shapes that git fsck accepts "
                         "(sampled in the generator self-check)", "the fuzzer's own PRNG is not seedable (coverage-guided)"]
